@@ -220,6 +220,17 @@ def timegm (f : List Nat) : Int :=
     ((days * 24 + hh) * 60 + mm) * 60 + ss
   | _ => 0
 
+def daysInMonth (y m : Nat) : Nat :=
+  if m = 2 then (if isLeap y then 29 else 28)
+  else if m = 4 ∨ m = 6 ∨ m = 9 ∨ m = 11 then 30 else 31
+
+/-- what `time.strptime` accepts (leap seconds excluded): a real calendar date and a time of day -/
+def validStampB : List Nat → Bool
+  | [y, m, d, hh, mm, ss] =>
+    decide (1 ≤ y) && decide (1 ≤ m) && decide (m ≤ 12) && decide (1 ≤ d) && decide (d ≤ daysInMonth y m)
+      && decide (hh < 24) && decide (mm < 60) && decide (ss < 60)
+  | _ => false
+
 /-! ## the executor -/
 
 /-- `submit` appends a future per task (future `i` ↔ task `i`); the tasks complete in the order
